@@ -18,6 +18,7 @@ import (
 	"encoding/hex"
 	"fmt"
 	"os"
+	"runtime/pprof"
 	"sort"
 	"strings"
 	"sync"
@@ -43,26 +44,39 @@ type finding struct {
 }
 
 type findings struct {
-	mu sync.Mutex
-	m  map[string]*finding
-	n  map[string]int
+	mu      sync.Mutex
+	m       map[string]*finding
+	n       map[string]int
+	per     map[string]int
+	dropped int
 }
 
-func newFindings() *findings { return &findings{m: map[string]*finding{}, n: map[string]int{}} }
+func newFindings() *findings {
+	return &findings{m: map[string]*finding{}, n: map[string]int{}, per: map[string]int{}}
+}
 
 func (f *findings) add(key string, d *caseRec) {
+	f.addLazy(key, len(d.Tx)+len(d.Canonical)+1000*len(d.Pre)+len(d.Subset)*10, func() *caseRec { return d })
+}
+
+// addLazy builds the record only when it is going to be kept (w is the size
+// of the example; the smallest one per key is kept).
+func (f *findings) addLazy(key string, w int, mk func() *caseRec) {
 	key = strings.ReplaceAll(key, " ", "_")
-	w := len(d.Tx) + len(d.Canonical) + 1000*len(d.Pre) + len(d.Subset)*10
 	f.mu.Lock()
 	defer f.mu.Unlock()
 	f.n[key]++
-	if len(f.m) >= 400 {
-		if _, ok := f.m[key]; !ok {
+	if _, ok := f.m[key]; !ok {
+		// bounded per sub-check so that a flood in one of them does not hide the others
+		sub := key[:strings.Index(key+":", ":")]
+		if f.per[sub] >= 60 {
+			f.dropped++
 			return
 		}
+		f.per[sub]++
 	}
 	if old := f.m[key]; old == nil || w < old.weight {
-		f.m[key] = &finding{Key: key, Detail: d, weight: w}
+		f.m[key] = &finding{Key: key, Detail: mk(), weight: w}
 	}
 }
 
@@ -76,12 +90,14 @@ func (f *findings) flush(r *vk.Run) {
 	sort.Strings(keys)
 	for _, k := range keys {
 		f.m[k].Detail.Occurrences = f.n[k]
+		f.m[k].Detail.Key = k
 		r.Violation(k, f.m[k].Detail)
 	}
 }
 
 // caseRec is the replayable description of one evaluation.
 type caseRec struct {
+	Key         string   `json:"key,omitempty"`
 	Sub         string   `json:"sub"`
 	State       string   `json:"state,omitempty"`
 	Path        string   `json:"path,omitempty"`
@@ -112,6 +128,8 @@ const (
 )
 
 type env struct {
+	omu   sync.Mutex
+	outs  map[string]map[string]int
 	r     *vk.Run
 	sc    *chainx.Scenario
 	cast  *conflictCast
@@ -124,8 +142,23 @@ type env struct {
 	}
 }
 
+// out counts an outcome class of a sub-check (all of them go to the evidence,
+// the kit keeps a compact version).
+func (e *env) out(sub, class string) {
+	e.omu.Lock()
+	if e.outs == nil {
+		e.outs = map[string]map[string]int{}
+	}
+	if e.outs[sub] == nil {
+		e.outs[sub] = map[string]int{}
+	}
+	e.outs[sub][class]++
+	e.omu.Unlock()
+}
+
 func protoExtra(c *config.Blockchain) {
 	c.MaxBlockSystemFee = 2000 * gas
+	c.MemPoolSize = 64
 }
 
 func newEnv(r *vk.Run) (*env, error) {
@@ -369,15 +402,31 @@ func TestCheck(t *testing.T) {
 		replay(e)
 		return
 	}
+	if pf := os.Getenv("C07_PROF"); pf != "" {
+		if f, err := os.Create(pf); err == nil {
+			_ = pprof.StartCPUProfile(f)
+			defer pprof.StopCPUProfile()
+		}
+	}
+	only := os.Getenv("C07_ONLY")
+	want := func(s string) bool { return only == "" || strings.Contains(only, s) }
+	var soundCov, feeCov, blockCov map[string]any
 	t0 := time.Now()
-	soundCov := e.runSound()
+	if want("sound") {
+		soundCov = e.runSound()
+	}
 	t1 := time.Now()
-	feeCov := e.runFee()
+	if want("block") {
+		blockCov = e.runBlocks()
+	}
 	t2 := time.Now()
-	blockCov := e.runBlocks()
+	if want("fee") {
+		feeCov = e.runFee()
+	}
 	t3 := time.Now()
-	fmt.Printf("C07 phases: sound+enc %.1fs, fee+enc %.1fs, proposable %.1fs\n", t1.Sub(t0).Seconds(), t2.Sub(t1).Seconds(), t3.Sub(t2).Seconds())
+	fmt.Printf("C07 phases: sound+enc %.1fs, proposable %.1fs, fee+enc %.1fs\n", t1.Sub(t0).Seconds(), t2.Sub(t1).Seconds(), t3.Sub(t2).Seconds())
 	e.f.flush(r)
+	pprof.StopCPUProfile()
 	cov := map[string]any{
 		"states":                        e.count.states.Len(),
 		"transitions":                   int(e.count.sound.Get() + e.count.fee.Get() + e.count.encVerdict.Get() + e.count.block.Get()),
@@ -391,6 +440,8 @@ func TestCheck(t *testing.T) {
 		"sound":                         soundCov,
 		"fee":                           feeCov,
 		"proposable":                    blockCov,
+		"outcomes_by_subcheck":          e.outs,
+		"findings_not_listed":           e.f.dropped,
 		"rule":                          "state = (sub-check, chain state or family, transaction content / pool content); every element of the stated finite sets is executed on a real replica",
 	}
 	r.Finish(cov, []string{
